@@ -61,7 +61,7 @@ def case(ctx, idx, res):
     res.evals = 0
     try:
         for k in range(ndocs):
-            xml, info = gen_xml.gen_tree(r, size=r.choice([6, 12, 25]), ns=r.random() < 0.4, ids=False)
+            xml, info = gen_xml.gen_doc(r, size=r.choice([6, 12, 25]), ns=r.random() < 0.4, ids=False)
             xer = r.random() < 0.3
             h = drv.call(cmd='xdoc', xml=xml, xerces=1 if xer else 0, buildmaps=r.choice([0, 1]))['doc'].decode()
             doc = refxml.parse(xml)
